@@ -256,7 +256,13 @@ func (a *appGenerator) makeCodegenApp() (GenApp, error) {
 
 	// the documents to embed are rendered before planning: planning models and operations adds
 	// definitions for anonymous types to the flattened document and sanitises validations in place
-	jsonb, _ := json.MarshalIndent(a.SpecDoc.OrigSpec(), "", "  ")
+	// the original document is decoded once more from the raw input: the copy kept by the loader
+	// (OrigSpec) is a gob clone, and gob leaves out pointers to zero values (minimum: 0, minLength: 0)
+	orig := a.SpecDoc.OrigSpec()
+	if reread := new(spec.Swagger); json.Unmarshal(a.SpecDoc.Raw(), reread) == nil {
+		orig = reread
+	}
+	jsonb, _ := json.MarshalIndent(orig, "", "  ")
 	flatjsonb, _ := json.MarshalIndent(a.SpecDoc.Spec(), "", "  ")
 
 	sw := a.SpecDoc.Spec()
